@@ -23,18 +23,20 @@ pub fn gen_cfg() -> GenCfg {
 
 fn configs(thorough: bool) -> Vec<Cfg> {
     let imports: [Vec<&str>; 3] = [vec![], vec!["core::fmt::Display"], vec!["core::fmt::*", "core::convert::TryFrom", "alloc::string::String"]];
-    let anns: [Option<Vec<&str>>; 4] = [
+    // (the last one: derive names that are paths or carry an underscore)
+    let anns: [Option<Vec<&str>>; 5] = [
         None,
         Some(vec![DEFAULT_ANN, "#[derive(PartialOrd, Ord)]"]),
         Some(vec![DEFAULT_ANN, "#[allow(dead_code)]"]),
         Some(vec![DEFAULT_ANN, DEFAULT_ANN]),
+        Some(vec![DEFAULT_ANN, "#[derive(ext_crate::Thing, Other_Name)]"]),
     ];
     let mut out = vec![];
     for bits in 0..8 {
         for (ii, imp) in imports.iter().enumerate() {
             for (ai, ann) in anns.iter().enumerate() {
                 // quick: a Latin-square style sample of the 8 x 3 x 4 lattice (24 configs)
-                if !thorough && (bits + ii + ai) % 4 != 0 {
+                if !thorough && (bits + ii + ai) % 4 != 0 && !(ai == 4 && (bits + ii) % 3 == 0) {
                     continue;
                 }
                 let mut c = Cfg::from_bits(bits);
